@@ -232,7 +232,10 @@ impl Kind for Str {
 pub struct Big(pub [u64; 16]);
 impl Default for Big {
     fn default() -> Self {
-        Big([0; 16])
+        // the pattern `vval` recognises as the value 0
+        let mut a = [0x5555_5555_5555_5555u64; 16];
+        a[0] = 0;
+        Big(a)
     }
 }
 impl fmt::Display for Big {
